@@ -450,7 +450,33 @@ func (e *e1) doView(op *Op) *Violation {
 				return e.violate([]string{"C12"}, "view.rows.withmeta", "step %d: View(%s/%s = %s, params %s) returned %s; the map function applied to the current documents gives %s; the difference is confined to documents last written by SetWithMeta/DeleteWithMeta (%v)", e.step, op.Key, op.Path, vd.Fam, *op.Body, showRows(got), showRows(want), keysOfSet(metaIDs))
 			}
 		}
-		v := e.violate([]string{"C12"}, "view.rows", "step %d: View(%s/%s = %s reduce=%q, params %s) returned %s; the map function applied to the current documents gives %s", e.step, op.Key, op.Path, vd.Fam, vd.Reduce, *op.Body, showRows(got), showRows(want))
+		tags := []string{"C12"}
+		if !reduced {
+			// a row that the map function emits for a document of ANOTHER collection (and not for this
+			// collection's document of that id) has leaked across collections
+			mine := map[string]bool{}
+			for _, r := range want {
+				mine[r.ID+"|"+canonKey(r.Key)+"|"+canonKey(r.Value)] = true
+			}
+			other := map[string]bool{}
+			for oc, odocs := range e.docs {
+				if oc == op.Coll {
+					continue
+				}
+				for _, id := range keysOf(odocs, "") {
+					for _, r := range evalMap(vd.Fam, id, odocs[id]) {
+						other[r.ID+"|"+canonKey(r.Key)+"|"+canonKey(r.Value)] = true
+					}
+				}
+			}
+			for _, r := range got {
+				if k := r.ID + "|" + canonKey(r.Key) + "|" + canonKey(r.Value); !mine[k] && other[k] {
+					tags = append(tags, "C11")
+					break
+				}
+			}
+		}
+		v := e.violate(tags, "view.rows", "step %d: View(%s/%s = %s reduce=%q, params %s) returned %s; the map function applied to the current documents gives %s", e.step, op.Key, op.Path, vd.Fam, vd.Reduce, *op.Body, showRows(got), showRows(want))
 		e.res.Stats.NonTrivial = true
 		return v
 	}
